@@ -24,6 +24,21 @@ def repl (fields : List String) : List String :=
   ["O " ++ esc (String.join (outs.map (·.stdout)))] ++
     outs.filterMap (fun o => o.err.map (fun e => "E " ++ toString e))
 
+/-- `display`: fields = mode, an expression: the `Display` text of its value, the value, and
+the result of evaluating `(quote <text>)` on the same interpreter -/
+def display (fields : List String) : List String :=
+  match fields with
+  | [mode, expr] =>
+    let st := initState mode
+    match Interp.evalText evalFuel st (unescape expr) with
+    | (.ok (some v), st) =>
+      let text := Prim.display st.store 100000 v
+      let (r, st') := Interp.evalText evalFuel st ("(quote " ++ text ++ ")").toList
+      ["T " ++ esc text, "V " ++ Prim.canon st.store 100000 v, showResult st' r]
+    | (.ok none, _) => ["N"]
+    | (.error e, _) => [errStr e]
+  | _ => ["X bad-fields"]
+
 /-- `world`: fields = steps `<instance index>:<text>` or `new`; two instances exist initially.
 Output: per step the result on that instance. -/
 def world (fields : List String) : List String :=
